@@ -1,5 +1,5 @@
 (* C16 — flat-integer interface of the arbitration model (stream arbitration).
-   input :  maxGlobal maxNode maxNs mmKind mmVal muKind muVal skipExpected
+   input :  16 (stream tag)  maxGlobal maxNode maxNs mmKind mmVal muKind muVal skipExpected
             P (ns node wl prio ptime ready forbid)*P   W (replicas isJobKind)*W   J (pod time)*J
             K (op a b)*K
    observable : per operation  (phase|-1 annotation waiting arbitrated)*J  verdict *)
@@ -47,9 +47,13 @@ Definition counted {A} (f : Z -> list Z -> A * list Z) (l : list Z) : list A * l
   | [] => ([], [])
   end.
 
+(* the first integer is the stream tag; anything else (e.g. a replay file of another stream of
+   the property) is foreign: empty observable, no verdict *)
+Definition mine (inp : list Z) : bool := match inp with t :: _ => t =? 16 | [] => false end.
+
 Definition decode (inp : list Z) : cfg * ast * list op :=
   match inp with
-  | g :: n :: s :: mk :: mv :: uk :: uv :: sk :: t =>
+  | _ :: g :: n :: s :: mk :: mv :: uk :: uv :: sk :: t =>
       let '(pods, r1) := counted dec_pod t in
       let '(wls, r2) := counted dec_wl r1 in
       let '(jobs, r3) := counted dec_job r2 in
@@ -59,8 +63,10 @@ Definition decode (inp : list Z) : cfg * ast * list op :=
   end.
 
 Definition run_case (inp : list Z) : list Z :=
-  let '(c, st, ops) := decode inp in
-  flat_map (fun sr => obs_state (fst sr) ++ [snd sr]) (run_ops c st ops).
+  if mine inp then
+    let '(c, st, ops) := decode inp in
+    flat_map (fun sr => obs_state (fst sr) ++ [snd sr]) (run_ops c st ops)
+  else [].
 
 (* cut the observable into per-operation records of J job tuples and a verdict *)
 Fixpoint dec_jobs_obs (k : nat) (l : list Z) : jobs_obs * list Z :=
@@ -87,8 +93,10 @@ Fixpoint dec_obs (nj : nat) (nops : nat) (l : list Z) : list (jobs_obs * Z) :=
   end.
 
 Definition prop_case (inp obs : list Z) : Z :=
-  let '(c, st, ops) := decode inp in
-  history_code c st ops (dec_obs (length (a_jobs st)) (length ops) obs).
+  if mine inp then
+    let '(c, st, ops) := decode inp in
+    history_code c st ops (dec_obs (length (a_jobs st)) (length ops) obs)
+  else match obs with [] => 0 | _ => 9 end.
 
 (* non-trivial: in some round at least one job passes and at least one is kept waiting
    (refused by a retryable filter) *)
@@ -108,7 +116,7 @@ Fixpoint nontrivial_ops (c : cfg) (st : ast) (ops : list op) : bool :=
   end.
 
 Definition nontrivial_case (inp : list Z) : bool :=
-  let '(c, st, ops) := decode inp in nontrivial_ops c st ops.
+  mine inp && let '(c, st, ops) := decode inp in nontrivial_ops c st ops.
 
 Definition finding_sig (inp obs : list Z) : Z := 0.
 
